@@ -167,3 +167,51 @@ def known_findings():
 def findings_for(prop):
     return [f for f in known_findings().get("findings", [])
             if prop in f.get("properties", []) and f.get("status") == "open"]
+
+
+# --------------------------------------------------------------------------- run isolation
+def isolated(fn, *args):
+    """Run fn(*args) in a forked child and return its (picklable) result.
+
+    Every simulated run starts from the state of a process that has imported the code under test but never
+    called it: module-level caches, memo slots, closures and the global switch left behind by one run can
+    therefore never influence another one, and a replay in a fresh interpreter sees exactly what the run saw.
+    """
+    import pickle
+    if os.environ.get("XSIM_NO_FORK"):
+        return fn(*args)
+    r, w = os.pipe()
+    pid = os.fork()
+    if pid == 0:
+        code = 0
+        try:
+            os.close(r)
+            try:
+                out = ("ok", fn(*args))
+            except HarnessError as e:
+                out = ("harness", str(e))
+            except BaseException as e:  # noqa
+                import traceback
+                out = ("harness", "%s: %s\n%s" % (type(e).__name__, e, traceback.format_exc()[-1500:]))
+            with os.fdopen(w, "wb") as f:
+                pickle.dump(out, f, protocol=pickle.HIGHEST_PROTOCOL)
+        except BaseException:  # noqa
+            code = 3
+        finally:
+            os._exit(code)
+    os.close(w)
+    chunks = []
+    with os.fdopen(r, "rb") as f:
+        while True:
+            b = f.read(1 << 16)
+            if not b:
+                break
+            chunks.append(b)
+    _, status = os.waitpid(pid, 0)
+    data = b"".join(chunks)
+    if not data:
+        raise HarnessError("isolated run died without a result (wait status %d)" % status)
+    kind, val = pickle.loads(data)
+    if kind == "harness":
+        raise HarnessError(val)
+    return val
